@@ -215,6 +215,25 @@ def limits(res):
     witness.run_witnesses(res, "T7.index-limits", ["zstd.h", "common/zstd_internal.h", "compress/zstd_compress_internal.h"], A, extra_flags=["-DZSTD_STATIC_LINKING_ONLY"])
 
 
+def cycle_log_callers(prog, res):
+    """T9 (sibling agreement): the period by which indexes may be reduced during overflow correction is that of the chain /
+    binary-tree table: ZSTD_cycleLog(chainLog, strategy).  Every caller must pass the chainLog and the strategy of the same
+    parameter set (the hash table has no such period: deriving the cycle from hashLog corrects by a wrong amount and the
+    positions kept in the bt/chain table no longer line up with their indexes)."""
+    R = "T9.cycle-log-arguments"
+    n = 0
+    for f in prog.all_functions():
+        if not f.file.startswith("lib/compress/"):
+            continue
+        for b, i, c in f.calls("ZSTD_cycleLog"):
+            n += 1
+            a0, a1 = f.anchors(c["a"][0], depth=3), f.anchors(c["a"][1], depth=3)
+            res.check("f:chainLog" in a0 and "f:hashLog" not in a0 and "f:strategy" in a1, R, "%s@%s" % (f.name, c.get("l")), "%s:%s" % (f.file, c.get("l")),
+                      "ZSTD_cycleLog(chainLog, strategy)", "%s derives the index cycle from %s instead of the chainLog: overflow correction reduces indexes by an "
+                      "amount that is not a multiple of the chain/tree table period" % (f.name, sorted(x for x in a0 if x.startswith("f:"))))
+    res.need(R, 2)
+
+
 def run(tier):
     res = Result("C15", tier)
     tus, info = extract(["compress", "common"])
@@ -223,6 +242,9 @@ def run(tier):
     tables_rebased(prog, res)
     correction_everywhere(prog, res)
     preemptive_reset(prog, res)
+    cycle_log_callers(prog, res)
+    from .C02 import overlap_trim            # shared clause: a wrapped input ring is trimmed out of the window on every update
+    overlap_trim(prog, res)
     limits(res)
     # the macros used in the witnesses are the ones the code uses
     f = prog.fn("ZSTD_window_needOverflowCorrection")
